@@ -646,4 +646,44 @@ def epochGetNode (hdrOk : Bytes → Bool) (chk : CI.DB → Option String) (hf : 
     run (carGetP hdrOk (unle (v.take 6)) (unle (v.drop 6)) cid) car
 
 
+theorem hw_btOpen {f : Bytes} {ix : BT} (h : run btOpenP f = .ok ix) : 46 + 4 * ix.cap ≤ hw btOpenP f := by
+  unfold btOpenP at h ⊢
+  simp only [run, hw] at h ⊢
+  cases h0 : readAt f 0 14 with
+  | none => simp [h0] at h
+  | some m =>
+    simp only [h0] at h ⊢
+    by_cases hm : m ≠ Generated.blocktimeMagic
+    · simp [hm, run] at h
+    · simp only [hm, if_false, run, hw] at h ⊢
+      cases h1 : readAt f 14 8 with
+      | none => simp [h1] at h
+      | some s =>
+        simp only [h1] at h ⊢
+        cases h2 : readAt f 22 8 with
+        | none => simp [h2] at h
+        | some e =>
+          simp only [h2] at h ⊢
+          cases h3 : readAt f 30 8 with
+          | none => simp [h3] at h
+          | some ep =>
+            simp only [h3] at h ⊢
+            by_cases c1 : unle s / Generated.epochLen ≠ unle e / Generated.epochLen
+            · simp [c1, run] at h
+            · by_cases c2 : unle s / Generated.epochLen ≠ unle ep
+              · simp [c1, c2, run] at h
+              · simp only [c1, c2, if_false, run, hw] at h ⊢
+                cases h4 : readAt f 38 8 with
+                | none => simp [h4] at h
+                | some c =>
+                  simp only [h4] at h ⊢
+                  cases h5 : readAt f 46 (4 * unle c) with
+                  | none => simp [h5] at h
+                  | some vals =>
+                    simp only [h5, Res.ok.injEq] at h ⊢
+                    subst h
+                    dsimp only
+                    omega
+
+
 end TR
